@@ -95,6 +95,17 @@ SeedScript(k) ==
                     Call("clear", 1, 0, TRUE, <<>>, ""), AddV(1), SetV(1, 0, 31),
                     Cr("create_persistent", 1, 2, "V", "int", "b"), MNew(2, "poly"), AddV(2), AddV(2), AddV(2),
                     Cr("create_shared", 2, 3, "V", "int", "b") >>
+    (* ---- topology-only meshes (no position property) ---- *)
+    [] k = 17 -> << MNew(1, "tpoly"), AddV(1), AddV(1), AddE(1, 0, 1) >> \o Mix(1, 1) \o
+                 << MNew(2, "tpoly"), AddV(2), Cr("create_persistent", 2, 4, "V", "int", "a") >>
+    [] k = 18 -> << MNew(1, "ttet"), AddV(1), AddV(1), AddV(1), AddV(1),
+                    FaceV(1, <<0, 2, 1>>), FaceV(1, <<0, 1, 3>>), FaceV(1, <<1, 2, 3>>), FaceV(1, <<0, 3, 2>>),
+                    KC("add_cell", 1, 0, 0, <<0, 2, 4, 6>>, TRUE), KC("delete_vertex", 1, 3, 0, <<>>, FALSE),
+                    Cr("create_persistent", 1, 1, "V", "int", "a"), Wr(1, 1, 1), Cr("create_shared", 1, 2, "V", "int", "b"),
+                    MNew(2, "ttet"), AddV(2), Cr("create_private", 2, 3, "V", "int", "a"),
+                    MNew(3, "thex"), AddV(3), Cr("create_persistent", 3, 4, "V", "int", "a") >>
+    [] k = 7  -> << MNew(1, "tpoly"), AddV(1), Cr("create_persistent", 1, 1, "V", "int", "a"),
+                    Cr("create_shared", 1, 2, "V", "int", "b"), MNew(2, "thex"), Cr("create_shared", 2, 3, "V", "int", "a") >>
     [] k = 16 -> << MNew(1, "poly") >> \o Seg(1) \o Mix(1, 1) \o << MCopy(2, 1), Cr("get_property", 2, 4, "V", "int", "a") >>
 
 Norm(x) == [x EXCEPT !.ret = "ok", !.busy = {}]
@@ -108,6 +119,7 @@ Targets1(x)  == (IF FreeSlots(x) = {} THEN {} ELSE {Min(FreeSlots(x))})
 Room(x, n)   == Cardinality(FreeIds(x)) >= n
 DeadMeshes(x) == Meshes(x) \ Alive(x)
 UserPers(x, m) == x.mesh[m].pers
+Geo(x)       == {m \in Alive(x) : Geometric(x.mesh[m].ty)}
 Attached(x)  == {h \in Bound(x) : x.sto[x.slot[h]].trk # 0}
 Ends(n)      == IF n = 0 THEN {} ELSE {0, n - 1}
 
@@ -129,16 +141,18 @@ CallsOf(x, op) ==
     [] op = "clear_all_props" -> {Call(op, m, 0, FALSE, <<>>, "") : m \in Alive(x)}
     [] op = "clear" -> {Call(op, m, 0, f, <<>>, "") : <<m, f>> \in Alive(x) \X BOOLEAN}
     [] op = "write" -> {Wr(h, i, 1) : <<h, i>> \in {y \in Bound(x) \X (0 .. 24) : y[2] \in Ends(Len(x.sto[x.slot[y[1]]].vals))}}
-    [] op = "set_vertex" -> {SetV(m, v, 5) : <<m, v>> \in {y \in Alive(x) \X (0 .. 12) : y[2] \in Ends(x.mesh[y[1]].kern.nv)}}
-    [] op = "persist_pos" -> {Call(op, m, 0, f, <<>>, "") : <<m, f>> \in Alive(x) \X BOOLEAN}
-    [] op = "pos_handle" -> {Call(op, m, h, FALSE, <<>>, "") : <<m, h>> \in Alive(x) \X Targets1(x)}
+    [] op = "set_vertex" -> {SetV(m, v, 5) : <<m, v>> \in {y \in Geo(x) \X (0 .. 12) : y[2] \in Ends(x.mesh[y[1]].kern.nv)}}
+    [] op = "persist_pos" -> {Call(op, m, 0, f, <<>>, "") : <<m, f>> \in Geo(x) \X BOOLEAN}
+    [] op = "pos_handle" -> {Call(op, m, h, FALSE, <<>>, "") : <<m, h>> \in Geo(x) \X Targets1(x)}
     [] op = "mesh_new" -> IF DeadMeshes(x) = {} \/ ~Room(x, 1) THEN {}
                           ELSE {MNew(Min(DeadMeshes(x)), ty) : ty \in MTypes}
     [] op = "mesh_copy" -> IF DeadMeshes(x) = {} THEN {}
                            ELSE {MCopy(Min(DeadMeshes(x)), s) : s \in {m \in Alive(x) : Room(x, Cardinality(x.mesh[m].pers) + 1)}}
-    [] op = "mesh_assign" -> {MAssign(d, s) : <<d, s>> \in {y \in Alive(x) \X Alive(x) : Room(x, Cardinality(x.mesh[y[2]].pers) + 1)}}
+    [] op = "mesh_assign" -> {MAssign(d, s) : <<d, s>> \in {y \in Alive(x) \X Alive(x) :
+                                 Assignable(x.mesh[y[1]].ty, x.mesh[y[2]].ty) /\ Room(x, Cardinality(x.mesh[y[2]].pers) + 1)}}
     [] op = "mesh_assign_other" -> {MAssign(d, s) : <<d, s>> \in {y \in Alive(x) \X Alive(x) :
-                                        y[1] # y[2] /\ Room(x, Cardinality(x.mesh[y[2]].pers) + 1)}}
+                                        y[1] # y[2] /\ Assignable(x.mesh[y[1]].ty, x.mesh[y[2]].ty)
+                                        /\ Room(x, Cardinality(x.mesh[y[2]].pers) + 1)}}
     [] op = "mesh_destroy" -> {Call(op, m, 0, FALSE, <<>>, "") : m \in Alive(x)}
     [] op = "teardown" -> {Call(op, 0, 0, f, <<>>, "") : f \in BOOLEAN}
     [] op = "add_vertex" -> {AddV(m) : m \in {y \in Alive(x) : x.mesh[y].kern.nv < MaxV}}
